@@ -766,7 +766,7 @@ class Converter:
                 non_scalar_indices.append((axis, elt))
         if not (sliced_indices or scalar_indices or non_scalar_indices):
             # Edge case: no index specified. Eg. A[:, :]
-            return self._emit1([target], "Identity", [var_name])
+            return self._emit1([target], "Identity", [var])
 
         # Axes removed by the Squeeze below: they shift the numbers of the axes behind them.
         removed_axes: list[int] = []
